@@ -379,6 +379,9 @@ class Run:
                 if f['id'] not in [x['id'] for x in self.known_hits]: self.known_hits.append(f)
         st = rec['verdict']
         if st == 'holds': return
+        if st == 'inconclusive' and h.get('optional') and 'timeout' in rec['why']:
+            rec['verdict'] = 'no-verdict(optional)'   # attempted, not counted, not claimed
+            return
         if st in ('inconclusive', 'unwind', 'vacuous'):
             with LOCK: self.problems.append('%s: %s (%s)' % (qn, st, rec['why']))
             return
